@@ -1105,6 +1105,22 @@ class ExprMixin(object):
                     return [(TRUE, wrap_const(e)) for e in x.v]
                 if isinstance(x, TupleVal):
                     return [(TRUE, e) for e in x.items]
+                if isinstance(x, App) and x.op == "ite" and len(x.args) == 3:
+                    # one list or another, depending on a condition: a guarded list
+                    c_, y_, z_ = x.args
+                    iy, iz = as_items(y_), as_items(z_)
+                    if iy is not None and iz is not None:
+                        return [(mk_and([c_, g]), e) for g, e in iy] + [(mk_and([mk_not(c_), g]), e) for g, e in iz]
+                if isinstance(x, Fin) and x.table and all(isinstance(v_, (list, tuple)) for v_ in x.table.values()):
+                    out_ = []
+                    seen_ = []
+                    for v_ in x.table.values():
+                        if v_ not in seen_:
+                            seen_.append(v_)
+                    for v_ in seen_:
+                        c_ = fo.fold(lambda t, v_=v_: t == v_, [x])
+                        out_ += [(c_, wrap_const(e)) for e in v_]
+                    return out_
                 return None
 
             ia, ib = as_items(a), as_items(b)
